@@ -703,6 +703,30 @@ def teardown(ctx):
         n_ok += 1
     ctx.notes["documented_defaults_compared"] = n_ok
     ctx.notes["distinct_global_states_observed"] = len(_S["states"])
+    # the values outside all blocks do not depend on how the interpreter was started: the same defaults under `python -O`
+    # (where __debug__ is False and assert statements are stripped)
+    import json as _json
+    import os
+    import subprocess
+    import sys
+
+    if ctx.shard == 0 if hasattr(ctx, "shard") else True:
+        code = ("import sys, json, warnings; warnings.simplefilter('ignore'); sys.path.insert(0, %r); sys.path.insert(0, %r); "
+                "from vf.checks import c20; c20._init(); print('SNAP' + json.dumps({k: repr(v) for k, v in c20.snapshot().items()}))") % ("/verif", os.environ.get("VERIF_REPO", "/repo"))
+        try:
+            r = subprocess.run([sys.executable, "-O", "-c", code], capture_output=True, text=True, timeout=300)
+            line = [l for l in r.stdout.splitlines() if l.startswith("SNAP")]
+            if line:
+                other = _json.loads(line[0][4:])
+                mine = {k: repr(v) for k, v in _S["defaults"].items()}
+                bad = [k for k in mine if other.get(k) != mine[k]]
+                ctx.begin({"defaults_under_python_O": True})
+                ctx.expect("defaults_independent_of_interpreter_flags", not bad, "defaults differ under `python -O`: " + "; ".join(f"{k}: {mine[k]} vs {other.get(k)}" for k in bad[:4]), fields=bad)
+                ctx.end()
+            else:
+                ctx.notes["python_O_probe"] = "no output: " + (r.stderr or "")[-200:]
+        except Exception as e:
+            ctx.notes["python_O_probe"] = f"failed: {type(e).__name__}"
 
 
 # ---- known findings (mechanism keyed) -----------------------------------------------------------------
